@@ -65,6 +65,17 @@ def _scenarios(prop, rng):
             ops += [{'op': 'expire', 'a': {}}, {'op': 'len', 'a': {}}, {'op': 'tick', 'a': {'n': 5}},
                     {'op': 'expire', 'a': {}}, {'op': 'iter', 'a': {'rev': 0, 'sorted': 0}}]
             out.append((dict(policy='lrs', cull=cull, limit=2 ** 30, stats=False), ops))
+    if prop == 'C04':
+        # more than two pages of expired items whose storage order differs from their expiry order
+        for pattern in ('random', 'descending'):
+            n = 240
+            ops = []
+            for i in range(n):
+                ttl = rng.randrange(1, 9) if pattern == 'random' else 8 - (i * 8) // n
+                ops.append({'op': 'set', 'a': {'k': K(i), 'v': 1, 'ttl': [ttl] if i % 11 else [], 'tag': 0}})
+            ops += [{'op': 'tick', 'a': {'n': 5}}, {'op': 'expire', 'a': {}}, {'op': 'len', 'a': {}},
+                    {'op': 'tick', 'a': {'n': 10}}, {'op': 'cull', 'a': {}}, {'op': 'iter', 'a': {'rev': 1, 'sorted': 0}}]
+            out.append((dict(policy='lru', cull=0, limit=2 ** 30, stats=False), ops))
     if prop == 'C09':
         for policy in ('lrs', 'lru', 'lfu', 'none'):
             ops = []
